@@ -242,6 +242,29 @@ def run(prog: Program, rep: Report, tier: str):
     rep.floor("explicit draws found on transform call paths", n_explicit, 60)
     rep.analysed["functions_on_call_paths"] = sorted(n_funcs)
 
+    # ---- pipelines are built from members set_rng can reach -----------------------------------------------------------
+    rep.rule("G2.pipeline-members", "the ready-made pipelines (kappadata/common/transforms) construct no torchvision transform that "
+             "draws by itself (RandomHorizontalFlip, RandomResizedCrop, ColorJitter, ...): such a member draws from the "
+             "process-global Torch RNG on every call and has no set_rng, so the injected seed neither reaches nor determines it")
+    from ..rules.rng import TV_RANDOM_CLASSES
+    n_pipe = 0
+    for rel, m in sorted(prog.by_relpath.items()):
+        if not rel.startswith("kappadata/common/transforms/") or prog.is_dead(m):
+            continue
+        n_pipe += 1
+        bad_ = []
+        for y in ast.walk(m.tree):
+            if isinstance(y, ast.Call):
+                r = prog.resolve_expr(m, y.func)
+                if r and r[0] == "ext" and r[1].startswith("torchvision") and r[1].rsplit(".", 1)[-1] in TV_RANDOM_CLASSES:
+                    bad_.append((y.lineno, r[1].rsplit(".", 1)[-1]))
+        rep.decide(not bad_, "G2.pipeline-members", m, "torchvision-random-members",
+                   "no self-drawing torchvision transform is constructed",
+                   "; ".join(f"torchvision {nm}(...) is constructed at line {ln}" for ln, nm in bad_[:4]) + ": it draws from the "
+                   "global Torch RNG whatever generator is injected", line=bad_[0][0] if bad_ else 1, clause="C07.3",
+                   nontrivial=False)
+    rep.floor("pipeline modules", n_pipe, 3)
+
     # ---- clause 4: who may call get_rng_from_global -------------------------------------------------------
     rep.rule("G2.from-global", "inside the transform family get_rng_from_global (which consumes global NumPy state) "
              "is called only from constructors and worker-init hooks")
